@@ -461,7 +461,8 @@ def random_spec(r, regime="calibrated", features=None):
                 dests = r.sample(members, r.choice([1, len(members)]))
                 for k, d in enumerate(dests):
                     p = newpar("proportion")
-                    p["value"] = {pop: (1.0 / len(dests) if regime == "calibrated" else r.choice([1.0, 0.5, 0.25, 2.0])) for pop in pops}
+                    # calibrated: mostly the exact split, but also proportions that sum to less / more than 1 (the junction normalises them)
+                    p["value"] = {pop: (1.0 / len(dests) * r.choice([1.0, 1.0, 0.6, 1.7]) if regime == "calibrated" else r.choice([1.0, 0.5, 0.25, 2.0])) for pop in pops}
                     trans.append([jname, d, p["name"]])
     # dedupe: a parameter at most once per source; no duplicate (src,dst,par)
     seen = set()
